@@ -7,6 +7,7 @@ CONSTANTS
   AllowRelate = FALSE
   AllowQueryX = FALSE
   AllowSweep = TRUE
+  AllowDeclare = FALSE
   CopyModes = {"copy","from_dao"}
   UnregisteredModes = {"from_dao"}
   Hist = FALSE
